@@ -168,7 +168,8 @@ class ProcessExecutor:
         for future, process in future_process_pairs:
             process.terminate()
             future.cancel()
-            del self._running_id_to_future_and_process[future.id]
+            # (The consumer thread may have removed the entry already.)
+            self._running_id_to_future_and_process.pop(future.id, None)
 
     def _consume_result_queue(self, *, timeout_seconds: Optional[float]):
         # Avoid race condition of a process finishing after we have
